@@ -243,10 +243,64 @@ def locstr(n):
     return '%s:%d' % (relpath(l[0]), l[1])
 
 
+def _substitute_aliases(d):
+    """`T& alias = obj->member;` ... `alias.erase(k)`: every later use of the local reference is replaced by the member access it
+    stands for (a copy of the initialiser under the use's node id), so rules that ask 'which member is touched here' see through the
+    alias.  Only pure access paths (this / variables / member accesses, no calls) are substituted."""
+    body = d.get('body')
+    if not isinstance(body, dict):
+        return
+    import copy
+    aliases = {}
+    stack = [body]
+    order = []
+    while stack:
+        n = stack.pop()
+        if not isinstance(n, dict):
+            continue
+        order.append(n)
+        for c in reversed(children(n)):
+            stack.append(c)
+    for n in order:
+        if n.get('k') == 'DeclStmt':
+            for dd in n.get('decls', []):
+                t = (dd.get('t') or '')
+                ini = dd.get('init')
+                if not t.rstrip().endswith('&') or t.rstrip().endswith('&&') or not isinstance(ini, dict):
+                    continue
+                core = strip(ini)
+                if core is None or core.get('k') != 'MemberExpr':
+                    continue
+                pure = True
+                for x in sub(core):
+                    if x.get('k') not in ('MemberExpr', 'DeclRefExpr', 'CXXThisExpr', 'ImplicitCastExpr', 'ParenExpr'):
+                        pure = False
+                if pure:
+                    aliases[dd['lid']] = core
+    if not aliases:
+        return
+    fresh = [9000000]
+    for n in order:
+        if n.get('k') == 'DeclRefExpr' and n.get('ref', {}).get('lid') in aliases:
+            src = copy.deepcopy(aliases[n['ref']['lid']])
+            for x in sub(src):
+                fresh[0] += 1
+                x['id'] = fresh[0]
+            keep = {'id': n['id'], 'loc': n.get('loc'), 'end': n.get('end')}
+            alias_name = n['ref'].get('name')
+            n.clear()
+            n.update(src)
+            n.update({k: v for k, v in keep.items() if v is not None})
+            n['alias_of'] = alias_name
+
+
 class Func:
     """One function definition with indexed nodes, parents and CFG."""
 
     def __init__(self, d):
+        if not d.get('_aliases_done'):
+            _substitute_aliases(d)
+            d['_aliases_done'] = True
         self.d = d
         self.q = d['q']
         self.m = d['m']
